@@ -252,4 +252,171 @@ theorem swapEvalOp_rel (cfg : Cfg) {d : Dialect} (hd : DialectRepr d) {s s' : MS
     intro a a' ha
     exact evalPair_rel cfg hd (pushOp_rel ha .Cons) hp henv
 
+/-! ### `apply_op` -/
+
+theorem ArgsRel.of_eq {α : Type} {x x' : Except Err α} (h : x = x') : ArgsRel Eq x x' := by
+  subst h
+  cases x with
+  | error e => exact .err e
+  | ok a => exact .ok a a rfl
+
+theorem parseSoftforkArguments_req (d : Dialect) {a a' : Val} (h : Req a a') :
+    ArgsRel (fun p p' => p.1 = p'.1 ∧ Req p.2.1 p'.2.1 ∧ Req p.2.2 p'.2.2)
+      (parseSoftforkArguments d a) (parseSoftforkArguments d a') := by
+  unfold parseSoftforkArguments
+  rcases (getArgs4_req h "softfork").cases' with ⟨e, h1, h2⟩ | ⟨⟨x, y, z, w⟩, ⟨x', y', z', w'⟩, h1, h2, hx, hy, hz, hw⟩
+  · rw [h1, h2]; exact .err e
+  · rw [h1, h2]
+    simp only [uintAtom_req 4 (Nat.le_refl 4) hy]
+    cases uintAtom 4 y' "softfork" d.flags with
+    | error e => exact .err e
+    | ok ext =>
+      simp only []
+      split
+      · exact .err _
+      · exact .ok _ _ ⟨rfl, hz, hw⟩
+
+/-- `apply_op` after the three pops (`s` is the state with the environment already popped) -/
+def applyOpBody (cfg : Cfg) (d : Dialect) (s : MState) (operator operandList : Val) (currentCost maxCost : Nat) :
+    M (Nat × MState) :=
+    let opAtom := smallNumber operator
+    if opAtom == some d.applyKw then do
+      let (newOperator, env) ← liftE (getArgs2 operandList "apply")
+      let (c, s) ← evalPair cfg d s newOperator env
+      pure (c + Gen.APPLY_COST, s)
+    else if opAtom == some d.softforkKw then do
+      let f ← liftE (first operandList)
+      let expectedCost ← liftE (uintAtom 8 f "softfork" d.flags)
+      if expectedCost > maxCost then .error (.err .CostExceeded)
+      else if expectedCost == 0 then .error (.err .CostExceeded)
+      else
+        match parseSoftforkArguments d operandList with
+        | .error err =>
+          if d.allowUnknownOps then do
+            let s ← s.push Val.nil
+            pure (expectedCost, s)
+          else .error (.err err)
+        | .ok (ext, prg, env) =>
+          if hasFlag d.flags Gen.FLAG_LIMIT_SOFTFORK && s.softforkStack.length ≥ Gen.softforkNestingLimit then
+            .error (.err .SoftforkStackDepthExceeded)
+          else do
+            let expected :=
+              if ext == .PreHardFork then
+                match s.softforkStack with
+                | sf :: _ => sf.expectedCost
+                | [] => currentCost + maxCost
+              else currentCost + expectedCost
+            let g : SoftforkGuard := { expectedCost := expected, allocatorState := s.ctr, operatorSet := ext }
+            let s := { s with softforkStack := g :: s.softforkStack }.pushOp .ExitGuard
+            let guardCost := if hasFlag d.flags Gen.FLAG_NEW_COST_MODEL then Gen.NEW_GUARD_COST else Gen.GUARD_COST
+            let (c, s) ← evalPair cfg d s prg env
+            pure (c + guardCost, s)
+    else
+      let currentExtensions := match s.softforkStack with
+        | sf :: _ => sf.operatorSet
+        | [] => .Default
+      match d.op operator operandList maxCost currentExtensions s.ctr with
+      | none => .error .unsupported
+      | some (.error e) => .error (.err e)
+      | some (.ok (cost, v, c)) => do
+        let s ← { s with ctr := c }.push v
+        pure (cost, s)
+
+theorem applyOp_eq (cfg : Cfg) (d : Dialect) (s : MState) (currentCost maxCost : Nat) :
+    applyOp cfg d s currentCost maxCost = (do
+      let (operandList, s) ← s.pop
+      let (operator, s) ← s.pop
+      match s.envStack with
+      | [] => .error (.err (.InternalError "environment stack empty"))
+      | _ :: envs =>
+        applyOpBody cfg d { s with envStack := envs, envLen := s.envLen - 1 } operator operandList
+          currentCost maxCost) := rfl
+
+theorem applyOpBody_rel (cfg : Cfg) {d : Dialect} (hd : DialectRepr d) {t t' : MState} (hs3 : StateEraseEq t t')
+    {o o' ol ol' : Val} (ho : Req o o') (hol : Req ol ol') (currentCost maxCost : Nat) :
+    MR StepRel (applyOpBody cfg d t o ol currentCost maxCost) (applyOpBody cfg d t' o' ol' currentCost maxCost) := by
+  unfold applyOpBody
+  simp only []
+  rw [smallNumber_req ho]
+  split
+  · -- apply
+    refine (MR.liftE (getArgs2_req hol "apply")).bind ?_
+    intro ⟨no, env⟩ ⟨no', env'⟩ ⟨hno, henv⟩
+    refine (evalPair_rel cfg hd hs3 hno henv).bind ?_
+    intro ⟨c, u⟩ ⟨c', u'⟩ ⟨hc, hu⟩
+    simp only at hc hu ⊢
+    subst hc
+    exact .ok ⟨rfl, hu⟩
+  · split
+    · -- softfork
+      refine (MR.liftE (first_req hol)).bind ?_
+      intro f f' hf
+      refine (MR.liftE (ArgsRel.of_eq (uintAtom_req 8 (by omega) hf "softfork" d.flags))).bind ?_
+      intro ec ec' hec
+      subst hec
+      split
+      · exact .err rfl
+      · split
+        · exact .err rfl
+        · rcases (parseSoftforkArguments_req d hol).cases' with ⟨e, h1, h2⟩ |
+            ⟨⟨ext, prg, env⟩, ⟨ext', prg', env'⟩, h1, h2, hext, hprg, henv⟩
+          · rw [h1, h2]
+            simp only []
+            split
+            · refine (push_rel hs3 Req.nil).bind ?_
+              intro a a' ha; exact .ok ⟨rfl, ha⟩
+            · exact .err rfl
+          · rw [h1, h2]
+            simp only at hext hprg henv ⊢
+            subst hext
+            rw [hs3.guards, hs3.ctr]
+            split
+            · exact .err rfl
+            · refine (evalPair_rel cfg hd (pushOp_rel ?_ _) hprg henv).bind ?_
+              · exact ⟨hs3.val, hs3.env, hs3.valLen, hs3.envLen, hs3.ops, rfl, hs3.allocs, rfl⟩
+              · intro ⟨c, u⟩ ⟨c', u'⟩ ⟨hc, hu⟩
+                simp only at hc hu ⊢
+                subst hc
+                exact .ok ⟨rfl, hu⟩
+    · -- operator call
+      rw [hs3.guards, hs3.ctr]
+      have hcall := hd.op o o' ol ol' maxCost
+        (match t'.softforkStack with | sf :: _ => sf.operatorSet | [] => .Default) t'.ctr ho hol
+      revert hcall
+      generalize d.op o ol maxCost _ t'.ctr = r
+      generalize d.op o' ol' maxCost _ t'.ctr = r'
+      intro hcall
+      match r, r', hcall with
+      | none, _, _ => exact .unsupL
+      | some _, none, _ => exact .unsupR
+      | some (.error e), some (.error e'), hk => exact .err hk
+      | some (.ok (k, v, c)), some (.ok (k', v', c')), ⟨hk, hv, hc⟩ =>
+        subst hk; subst hc
+        simp only []
+        refine MR.bind (R := StateEraseEq) (push_rel ?_ hv) ?_
+        · exact ⟨hs3.val, hs3.env, hs3.valLen, hs3.envLen, hs3.ops, rfl, hs3.allocs, rfl⟩
+        · intro a a' ha; exact .ok ⟨rfl, ha⟩
+      | some (.error _), some (.ok _), hf => exact hf.elim
+      | some (.ok _), some (.error _), hf => exact hf.elim
+
+theorem applyOp_rel (cfg : Cfg) {d : Dialect} (hd : DialectRepr d) {s s' : MState} (h : StateEraseEq s s')
+    (currentCost maxCost : Nat) :
+    MR StepRel (applyOp cfg d s currentCost maxCost) (applyOp cfg d s' currentCost maxCost) := by
+  rw [applyOp_eq, applyOp_eq]
+  refine (pop_rel h).bind ?_
+  intro ⟨ol, s1⟩ ⟨ol', s1'⟩ ⟨hol, hs1⟩
+  refine (pop_rel hs1).bind ?_
+  intro ⟨o, s2⟩ ⟨o', s2'⟩ ⟨ho, hs2⟩
+  simp only at hol hs1 ho hs2 ⊢
+  have he := hs2.env
+  generalize hes : s2.envStack = es at he ⊢
+  generalize hes' : s2'.envStack = es' at he ⊢
+  cases he with
+  | nil => exact .err rfl
+  | @cons x x' envs envs' _ henvs =>
+    simp only []
+    exact applyOpBody_rel cfg hd (t := { s2 with envStack := envs, envLen := s2.envLen - 1 })
+      (t' := { s2' with envStack := envs', envLen := s2'.envLen - 1 })
+      ⟨hs2.val, henvs, hs2.valLen, by simp [hs2.envLen], hs2.ops, hs2.guards, hs2.allocs, hs2.ctr⟩ ho hol _ _
+
 end Clvm.Interp
